@@ -147,15 +147,18 @@ func (c *Collection) DeleteSubDocPaths(
 			cas: newCas,
 		}
 		var revSeqNo uint64
-		row := txn.QueryRow(`SELECT value, xattrs, revSeqNo FROM documents WHERE collection=?1 AND key=?2`, c.id, key)
+		row := txn.QueryRow(`SELECT value, xattrs, revSeqNo, isJSON, exp FROM documents WHERE collection=?1 AND key=?2`, c.id, key)
 		var rawXattrs []byte
-		err := scan(row, &e.value, &rawXattrs, &revSeqNo)
+		err := scan(row, &e.value, &rawXattrs, &revSeqNo, &e.isJSON, &e.exp)
 		if err != nil {
 			return nil, remapKeyError(err, key)
 		}
 		if rawXattrs, err = removeXattrs(rawXattrs, xattrKeys...); err != nil {
 			return nil, err
 		}
+		revSeqNo++
+		e.revSeqNo = revSeqNo
+		e.isDeletion = (e.value == nil)
 		e.xattrs = rawXattrs
 		_, err = txn.Exec(`UPDATE documents SET xattrs=?1, cas=?2, revSeqNo=?3 WHERE collection=?4 AND key=?5`, rawXattrs, newCas, revSeqNo, c.id, key)
 		return e, err
